@@ -85,3 +85,26 @@ claim("C17",
       "h5py File.flush on the file's own handle on every normal path; File.close reaches h5py File.close on every "
       "normal path; nixio has no write-back layer (all 63 setters are write-through on every path, containers hold "
       "no state).", "must-pass-through on all abstract paths; shared write-through rules of C02", "DESIGN.md#c17")
+
+claim("C03",
+      "Static decision, on every abstract path of the 13 public creators (create_* and copy variants): the creation "
+      "of the named entity is preceded by a name-only membership test (the hdf5 layer's __contains__, not the "
+      "id-or-name dispatching container test) of that very name on the very group the entity is created in, decided "
+      "negative; invalid names/empty types never reach a storage write; every entity_id written on any path of any "
+      "API member comes from uuid4 or from an oid that passed is_uuid (the layer's copy re-ids with uuid4); every "
+      "HDF5 group/file creation requests creation-order tracking+indexing and positional access iterates the "
+      "creation-order index increasing; the id-or-name dispatchers are checked for a fall-back to the name when the "
+      "id search misses (known finding D10: they have none). NOT decided: uniqueness of uuid4 values, agreement of "
+      "all lookup paths as sequences at run time.",
+      "must-precede / value-provenance on all abstract paths (path-sensitive abstract interpretation); raw h5py "
+      "event arguments; decision tables of the dispatchers", "DESIGN.md#c03")
+claim("C04",
+      "Static decision on every abstract path: entity deletion (the three entity containers' __delitem__) ends in a "
+      "delete_all on the FILE ROOT group whose id list derives from the item's id and, for sections/sources, from "
+      "the item's whole subtree; link-list deletion never reaches delete_all and unlinks only in the list's own "
+      "group; every role-link unlink on an entity's own group (13 API members) passes delete_if_empty=False (the "
+      "default removes the owner); delete_all unlinks exactly the children whose entity_id is in the id list, "
+      "walking everything below its receiver; wrong-kind refusals precede any deletion. NOT decided: that every "
+      "link kind present in a concrete file is reachable by the HDF5 walk.",
+      "must-end-in / event-absence / argument-value checks on all abstract paths; guard dependency of the unlink",
+      "DESIGN.md#c04")
